@@ -114,6 +114,15 @@ theorem get_set (s : Settings) (f : Field) (h : f.kind = .set) : s.get f = .set 
 theorem getSet_hidden (s : Settings) : s.getSet .hidden = s.hidden.getD [] := by
   cases h : s.hidden <;> simp [Settings.getSet, Settings.get, h]
 
+/-! ### injectivity of the payload wrappers -/
+
+theorem map_text_inj {a b : Option String} (h : a.map Val.text = b.map Val.text) : a = b := by
+  cases a <;> cases b <;> simp_all
+theorem map_num_inj {a b : Option Nat} (h : a.map Val.num = b.map Val.num) : a = b := by
+  cases a <;> cases b <;> simp_all
+theorem map_chain_inj {a b : Option Chain} (h : a.map Val.chain = b.map Val.chain) : a = b := by
+  cases a <;> cases b <;> simp_all
+
 /-! ### `or_defaults` -/
 
 theorem orDefaults_ok (p : Params) (s r : Settings) (h : s.orDefaults p = .ok r) :
